@@ -236,3 +236,7 @@ Definition void_ret_spec (x : Z) : Z := 3 * x + 3.
 (* [pairs.spec] make_pair: unwrap_ref_decay_t: reference_wrapper<X> -> X&, everything else decays *)
 Definition make_pair_member_spec (wrapped : option bool) : ty :=
   match wrapped with Some false => mkty false RL | Some true => mkty true RL | None => mkty false RNone end.
+
+(* [dcl.struct.bind] + [tuple.helper]: std::tuple supports structured bindings; [tuple.elem] / [pair.astuple]: get<T> *)
+Definition tuple_structured_binding_spec : bool := true.
+Definition get_by_type_spec (is_pair : bool) : bool := true.
